@@ -55,7 +55,7 @@ def build_condition(mod, fn, extra_pre, mode):
     h = hashlib.sha1(src.encode()).hexdigest()[:12]
     d = os.path.join(HERE, ".work", "cubes")
     os.makedirs(d, exist_ok=True)
-    path = os.path.join(d, "cube_%s_%s.py" % (fn.__name__, h))
+    path = os.path.join(d, "cube_%s_%s_%d.py" % (fn.__name__, h, os.getpid()))   # per process: twins share a source text
     with open(path, "w") as f:
         f.write(src)
     spec = importlib.util.spec_from_file_location("cube_%s_%s" % (fn.__name__, h), path)
